@@ -1,9 +1,13 @@
 //! Semantics-free harness: renders abstract cases, runs the real nitrogql code,
 //! and re-encodes what it observed as ndjson events for the TLA+ trace specs.
 //! A panic in the code under test is data (an event), never a harness failure.
+mod debug;
+mod extmerge;
 mod imports;
 mod loader;
 mod paths;
+mod project;
+mod render;
 mod util;
 
 use std::env;
@@ -19,6 +23,8 @@ fn main() {
     let rest = &args[2..];
     let rc = match args[1].as_str() {
         "paths" => paths::run(rest),
+        "debug" => debug::run(rest),
+        "extmerge" => extmerge::run(rest),
         "imports" => imports::run(rest),
         "loader" => loader::run(rest),
         "loader-child" => loader::run_child(rest),
